@@ -3,7 +3,7 @@
 From Coq Require Import List NArith ZArith Bool Lia Arith ZifyBool ZifyN ZifyNat.
 From Coq Require Import Strings.Byte.
 From Falco Require Import Base.Res Base.Bytes Base.Utf8 Proofs.Utf8Proofs Gen.Tokens Model.Lex Model.Pump
-  Proofs.LexProgress Proofs.C20Lex Proofs.C20Chain Proofs.C20Table.
+  Proofs.LexProgress Proofs.C20Classes Proofs.C20Lex Proofs.C20Chain Proofs.C20Table.
 From Falco Require Model.Escape Proofs.EscapeProofs Gen.TokenTypes Model.ParseBase Model.ParseLit Model.Ast Model.Yield
   Model.ParseDecl Model.LexParse Proofs.ParsePratt Proofs.ParseLitFacts Proofs.ParseProgram4 Proofs.ParseProgram5.
 Import ListNotations.
@@ -60,7 +60,7 @@ Qed.
 Lemma digit_byte x : x < 10 -> digitb (n2b (48 + x)) = true /\ ParseLitFacts.digit_of (n2b (48 + x)) = x /\
   ParseLitFacts.digit_ok 10 (n2b (48 + x)) = true.
 Proof.
-  intros H. unfold digitb, is_decimal, in_rng, ParseLitFacts.digit_of, ParseLitFacts.digit_ok, ParseLit.digit_val.
+  intros H. unfold digitb, ParseLitFacts.digit_of, ParseLitFacts.digit_ok, ParseLit.digit_val; cls.
   rewrite !b2n_n2b_small by lia.
   replace ((48 <=? 48 + x) && (48 + x <=? 57)) with true by lia. repeat split; lia.
 Qed.
@@ -146,7 +146,7 @@ Proof.
   induction ip as [|b ip IH]; simpl; intros H; [split; [constructor | reflexivity]|].
   apply andb_true_iff in H. destruct H as [Hb Hip]. destruct (IH Hip) as [A B]. unfold ipbyte in Hb. split.
   - constructor; [unfold ascii; lia | exact A].
-  - rewrite B, andb_true_r. unfold body_ok, valid_scalar, in_string. lia.
+  - rewrite B, andb_true_r. unfold body_ok, valid_scalar; cls. lia.
 Qed.
 
 Lemma step_not t : step [x21] (x22 :: t) (T_NOT, [33], 0).
@@ -163,7 +163,7 @@ Lemma step_int digits after : digits <> [] -> forallb digitb digits = true -> in
 Proof.
   intros Hne Hd He. apply (step_of_cstep [] digits after); [reflexivity | | apply cstep_int; assumption].
   destruct digits as [|d ds]; [congruence|]. cbn [app]. simpl in Hd. apply andb_true_iff in Hd. destruct Hd as [Hd _].
-  unfold digitb, is_decimal, in_rng in Hd. split; [unfold ascii; lia | unfold is_space; lia].
+  unfold digitb in Hd; cls in Hd. split; [unfold ascii; lia | cls; lia].
 Qed.
 
 (* the chain of one entry; what follows starts with a line feed *)
@@ -318,7 +318,7 @@ Proof.
   assert (Hsplit : ParseLit.int_split (E.decimal m) = (10, E.decimal m)).
   { unfold ParseLit.int_split. destruct (E.decimal m) as [|c0 [|c1 [|c2 r]]] eqn:Ed; try reflexivity.
     simpl in Hdig. apply andb_true_iff in Hdig. destruct Hdig as [_ Hdig]. apply andb_true_iff in Hdig. destruct Hdig as [H1 _].
-    unfold digitb, is_decimal, in_rng in H1. unfold ParseLit.is_c.
+    unfold digitb in H1; cls in H1. unfold ParseLit.is_c.
     replace (b2n c1 =? 120) with false by lia. replace (b2n c1 =? 88) with false by lia. rewrite andb_false_r. reflexivity. }
   rewrite (ParseLitFacts.int_literal_exact false (E.decimal m) 10 (E.decimal m) Hsplit ltac:(lia) Hne Hok).
   unfold E.decimal. rewrite dec_fuel_value.
